@@ -250,10 +250,17 @@ def alias(ctx, prog, rule="R-ALIAS"):
             base = (p.get("tr") or p["t"]).replace("const ", "").replace("&", "").strip().split("::")[-1]
             if base in VIEW_TYPES and p["n"] in ("src", "source", "rhs", "other", "value"):
                 srcs.append(p)
+            # an adapted string may designate characters owned by the destination
+            # itself (v.set(v.as<JsonString>())): D20
+            elif fn.cls.split("::")[-1] == "VariantData" and fn.name == "setString" and p["n"] == "value" and \
+                    ("String" in base or "TAdaptedString" in p["t"]):
+                srcs.append(p)
         if not srcs:
             continue
         dst_is_this = cls in DEST_CLASSES and fn.name in ("set", "operator=", "copyFrom")
         dst_params = [p for p in fn.params if p["n"] in ("dst", "dest") and (p.get("tr") or p["t"]).split("::")[-1].startswith("JsonVariant")]
+        dst_params += [p for p in fn.params if p["n"] == "var" and "VariantData" in (p.get("tr") or p["t"]) and
+                       fn.cls.split("::")[-1] == "VariantData" and fn.name == "setString"]
         if not dst_is_this and not dst_params:
             continue
         sd = {p["d"] for p in srcs}
@@ -316,6 +323,9 @@ def alias(ctx, prog, rule="R-ALIAS"):
         n += 1
         ctx.ob(rule, inst, guarded, fn.loc(hazard[0]),
                "identity test dominates the clear" if guarded else
+               ("%s releases the destination's string and %s is read afterwards; nothing excludes that the characters belong to the string "
+                "just released: `v.set(v.as<JsonString>())` on a copied string reads freed memory in StringPool::add (D20)" %
+                (fn.text(hazard[0])[:50], fn.s(hazard[1])["ref"]["n"])) if fn.name == "setString" else
                "%s empties the destination and %s is read afterwards; nothing excludes that the source is the destination or lies inside "
                "it: `doc[0] = doc[0]` turns [[1,2,3]] into [[]], `a.set(a)` empties a, `doc[\"a\"] = doc[\"a\"][\"b\"]` yields {\"a\":[null]}" %
                (fn.text(hazard[0])[:50], fn.s(hazard[1])["ref"]["n"]))
